@@ -1496,11 +1496,22 @@ func (c *Conn) readHeader(b []byte, res *fasthttp.Response) error {
 
 	var regularSeen bool
 
+	fields := 0
+
 	for len(b) > 0 {
-		b, err = dec.Next(hf, b)
+		var decoded bool
+
+		b, decoded, err = dec.nextField(hf, true, fields, b)
 		if err != nil {
 			return err
 		}
+
+		if !decoded {
+			// nothing but a table size update was left
+			break
+		}
+
+		fields++
 
 		// A response carries exactly one pseudo-header, :status, and it must
 		// come before any regular field.
